@@ -215,6 +215,8 @@ class ApiGen:
         self.ops.append("HO:%d:%s" % (a, tr))
         for _ in range(1 + r.below(5)):
             name = r.choice(sorted(self.files)) if self.files and r.chance(9, 10) else 1 + r.below(4)
+            if getattr(self, "dir", False) and tr == "-" and r.chance(1, 4):
+                name = 5         # only hash_file: what a transform program does with an unreadable input is its own business
             if tr == "-":
                 pos, ln = self.spec(name)
                 self.ops.append("H:%d:%d:%d" % (name, pos, ln))
@@ -244,6 +246,10 @@ class ApiGen:
 
     def generate(self):
         r = self.r
+        self.dir = r.chance(1, 5) and self.profile == "clean"
+        if self.dir:
+            self.ops.append("m:5:%d" % self.fresh())
+            self.feat.add("unreadable_file")
         for _ in range(1 + r.below(3)):
             self.edit()
         for _ in range(2 + r.below(5)):
@@ -269,6 +275,9 @@ def annotate_for_model(ops, impl_tokens):
         if op.startswith("c:"):
             ino = tok[1:] if tok.startswith("i") else "-"
             out.append(op + ":" + ino)
+        elif op.startswith("m:"):
+            f = tok[1:].split(",") if tok.startswith("i") and "," in tok else ["-", "0"]
+            out.append(op + ":" + f[0] + ":" + f[1])
         else:
             out.append(op)
     return out
@@ -333,7 +342,7 @@ def api_examine(ctx, r, profile, count=True):
     """Compare one sequence.  Returns (status, detail): status in ok | env | corr | crash"""
     ops, impl, model, fl = r["ops"], r["impl"], r["model"], r["flags"]
     if len(impl) != len(ops) or any(t.startswith("EXN") for t in impl):
-        return "crash", "harness: " + " ".join(impl)[:300]
+        return "crash", "harness: " + " ".join([t for t in impl if t.startswith("EXN")][:2])[:700]
     if len(model) != len(ops) or any(t.startswith("EXN") for t in model):
         return "crash", "model: " + r["model_out"][:300]
     status, detail = "ok", None
@@ -623,19 +632,26 @@ class CliGen:
             o["desc"], o["mt"] = d, mt
             self.feat.add("rewrite_other_size")
             return {"op": "write", "path": p, "desc": d, "mt": mt}
-        if k == 6:
-            n, mt = r.choice([1, 7, 4096]), self.fresh()
-            nd = {"size": o["desc"]["size"] + n, "mods": [list(m) for m in o["desc"]["mods"] if m[0] >= 0]}
+        if k in (6, 7):
+            # append / truncate; the proviso allows keeping the mtime when the length changes (each (mtime, length)
+            # pair is used at most once per file object, fresh mtimes are unique)
+            if k == 6:
+                size = o["desc"]["size"] + r.choice([1, 7, 4096])
+            else:
+                size = max(1, o["desc"]["size"] - r.choice([1, 100, 4096]))
+            used = o.setdefault("stamps", set())
+            used.add((o["mt"], o["desc"]["size"]))
+            if self.profile == "clean" and r.chance(1, 3) and (o["mt"], size) not in used and size != o["desc"]["size"]:
+                mt = o["mt"]
+                self.feat.add("length_change_keeps_mtime")
+            else:
+                mt = self.fresh()
+            used.add((mt, size))
+            nd = {"size": size, "mods": [list(m) for m in o["desc"]["mods"] if m[0] >= 0]}
             o["desc"], o["mt"] = nd, mt
-            self.feat.add("append")
-            return {"op": "write", "path": p, "desc": nd, "mt": mt, "how": "append"}
-        if k == 7:
-            n = max(1, o["desc"]["size"] - r.choice([1, 100, 4096]))
-            mt = self.fresh()
-            nd = {"size": n, "mods": [list(m) for m in o["desc"]["mods"] if m[0] >= 0]}
-            o["desc"], o["mt"] = nd, mt
-            self.feat.add("truncate")
-            return {"op": "write", "path": p, "desc": nd, "mt": mt, "how": "truncate"}
+            how = "append" if k == 6 else "truncate"
+            self.feat.add(how)
+            return {"op": "write", "path": p, "desc": nd, "mt": mt, "how": how, "keeps_mtime": mt in [x[0] for x in used if x[1] != size]}
         if k == 8:
             mt = self.fresh()
             o["mt"] = mt
@@ -795,12 +811,16 @@ def cli_exec(fclones, hdir, bindir, steps, base, order_rng=None, stats=None):
     def run(cfg, cached, kill_ms=None):
         cmd = [fclones] + cli_args(cfg, cached)
         if kill_ms is not None:
-            p = subprocess.Popen(cmd, cwd=hdir, env=env, stdout=subprocess.DEVNULL, stderr=subprocess.DEVNULL)
+            p = subprocess.Popen(cmd, cwd=hdir, env=env, stdin=subprocess.DEVNULL, stdout=subprocess.DEVNULL,
+                                 stderr=subprocess.DEVNULL)
             time.sleep(kill_ms / 1000.0)
             p.send_signal(signal.SIGKILL)
             p.wait()
             return None
-        p = subprocess.run(cmd, cwd=hdir, env=env, stdout=subprocess.PIPE, stderr=subprocess.PIPE, timeout=300)
+        # stdin at EOF: Transform::new probes the program with inherited stdio and kills only the direct child; a
+        # grandchild still reading our stdin would keep the stdout pipe open for ever
+        p = subprocess.run(cmd, cwd=hdir, env=env, stdin=subprocess.DEVNULL, stdout=subprocess.PIPE,
+                           stderr=subprocess.PIPE, timeout=300)
         return (p.returncode, report_body(p.stdout.decode("utf-8", "replace")), p.stderr.decode("utf-8", "replace")[-600:])
 
     fail = None
@@ -946,7 +966,7 @@ def cli_level(ctx, only=None):
             ctx.bump("cli_max_prefix", c.get("max_prefix"))
             ctx.bump("cli_interrupted_before", c.get("kill_ms") is not None)
             for e in s["edits"]:
-                ctx.bump("cli_edit", e["op"] + ("_" + e["how"] if e.get("how") else ""))
+                ctx.bump("cli_edit", e["op"] + ("_" + e["how"] if e.get("how") else "") + ("_keeping_mtime" if e.get("keeps_mtime") else ""))
         cfgs = [json.dumps(s["run"], sort_keys=True) for s in r["steps"]]
         ctx.bump("cli_config_switches_in_history", sum(1 for a, b in zip(cfgs, cfgs[1:]) if a != b))
         for g in st.get("groups", []):
@@ -998,9 +1018,12 @@ def run(ctx):
     ctx.trusted.append("C12: transform table shared by hand between drv_K.ml, cache.rs and c12.py; reference hashes from the "
                        "metrohash/xxhash-rust/blake3/sha2/sha3 crates; kernel semantics of rename/link/unlink/utimensat; "
                        "inode numbers of new files are taken from the implementation run and fed to the model")
+    t0 = time.time()
     ctx.use_coq(extra_targets=("Extract_K.vo",))
     model = core.build_model("K")
+    core.log("[C12] coq + model ready after %.0f s" % (time.time() - t0))
     core.build_harness(["cache"])
+    core.log("[C12] harness ready after %.0f s (waits for the shared cargo lock included)" % (time.time() - t0))
     if ctx.replay:
         rp = json.load(open(ctx.replay))
         if rp.get("level") == "cli":
